@@ -33,7 +33,7 @@ package imagemeta
 //@   requires r != nil
 
 //@ func Decode
-//@   props C01 C02 C06
+//@   props C01 C02 C06 C10
 //@   entry
 //@   requires r != nil
 
